@@ -1,6 +1,7 @@
 import Driver.Echo
 import Driver.Lru
 import Driver.Search
+import Driver.Fuzzy
 
 namespace Driver
 
@@ -11,6 +12,7 @@ def dispatch (dom : String) (ops : Array String) : Array String :=
   | "echo" => Echo.runCase ops
   | "lru" => Lru.runCase ops
   | "search" => Search.runCase ops
+  | "fuzzy" => Fuzzy.runCase ops
   | _ => ops.map (fun _ => "unknown-domain")
 
 end Driver
